@@ -73,12 +73,12 @@ def cases(tier):
 
 
 def tt_column_sums(op):
-    """ones^T A in TT form -> dense row vector (only the column space is expanded: prod(col_dims) entries)"""
-    v = np.ones((1, 1))
+    """2-norm of the row vector ones^T A, computed in TT form (transfer matrices; nothing of size prod(dims) is built)"""
+    g = np.ones((1, 1))
     for c in op.cores:
-        s = np.asarray(c).sum(axis=1)           # (r, n, r')
-        v = np.tensordot(v, s, axes=(1, 0)).reshape(-1, s.shape[2])
-    return v[:, 0]
+        sk = np.asarray(c).sum(axis=1)           # (r, n, r')
+        g = np.einsum('ab,anc,bnd->cd', g, sk, sk)
+    return np.array([np.sqrt(abs(g[0, 0]))])
 
 
 def check_gen(r, key, op, dense_ok=True, G=None):
